@@ -220,6 +220,12 @@ def range1(ctx, prog, cfg, rule="RANGE1"):
         return
     for pos, name, which in ((0, "start", "RangeBounds::start_bound"), (1, "end", "RangeBounds::end_bound")):
         e = r[3][pos][1]
+        wrapped = False
+        e_ = mir.strip_casts(g.deep_simplify(e))
+        if isinstance(e_, tuple) and e_[:1] == ("call",) and e_[1] in ("Option::expect", "Option::unwrap") and e_[2] and isinstance(e_[2][0], tuple) and e_[2][0][:1] == ("phi",):
+            # the three arms each produce an Option and one `.expect(..)` after the join unwraps it: the same translation with the
+            # overflow check of the `+ 1` arm shared
+            wrapped, e = True, e_[2][0]
         if not (isinstance(e, tuple) and e[0] == "phi" and e[2][0] == "L"):
             ctx.violate(rule, TRB, "%s is a join of the three bound kinds" % name, g.loc, "`%s` is `%s`" % (name, mir.fmt(e, g)), cfg)
             continue
@@ -244,6 +250,14 @@ def range1(ctx, prog, cfg, rule="RANGE1"):
                 continue
             b, i, val = seen[k]
             plus1 = (k == 1 and name == "start") or (k == 0 and name == "end")
+            if wrapped:
+                val = mir.strip_casts(g.deep_simplify(val))
+                if isinstance(val, tuple) and val[:1] == ("agg",) and val[2] == "Some" and len(val[3]) == 1:
+                    val = mir.strip_casts(val[3][0][1])      # Some(v): unwrapped to v by the shared expect
+                elif plus1 and isinstance(val, tuple) and val[:2] == ("pcall", "<usize>::checked_add"):
+                    val = ("call", "Option::expect", (val, ("const", "shared", "")), b)   # x.checked_add(1), None caught by the shared expect
+                else:
+                    val = ("opaque-option", val)
             if k == 2:
                 if name == "start":
                     ok = val == ("int", 0)
